@@ -41,12 +41,12 @@ namespace vf
 
   /// pattern generator by construction. valcls: value class of Tape::real. square: force rows==cols.
   /// force_cls >= 0 selects the class.
-  inline Pat gen_pattern(Tape& t, int maxdim, int valcls, bool square = false, int force_cls = -1, int mindim = 0)
+  inline Pat gen_pattern(Tape& t, int maxdim, int valcls, bool square = false, int force_cls = -1, int mindim = 0, int fixed_rows = -1, int fixed_cols = -1)
   {
     Pat p;
     int cls = force_cls >= 0 ? force_cls : t.pick({30, 6, 5, 5, 10, 8, 6, 8, 6, 6});
     p.cls = pat_class_names[cls];
-    p.rows = t.sized(mindim, maxdim); p.cols = square ? p.rows : t.sized(mindim, maxdim);
+    p.rows = fixed_rows >= 0 ? fixed_rows : t.sized(mindim, maxdim); p.cols = fixed_cols >= 0 ? fixed_cols : (square ? p.rows : t.sized(mindim, maxdim));
     p.col.assign(p.rows, {}); p.val.assign(p.rows, {});
     if(p.rows == 0 || p.cols == 0) return p;
     auto addv = [&](int i, int j) { p.col[i].push_back(j); p.val[i].push_back(t.real(valcls)); };
